@@ -249,6 +249,7 @@ func c12StepLevel(c *ctx, rng *core.Rand, _ []*core.Session, n int) error {
 		c12Mode = rng.Intn(3)
 		stepDoc := o.CommandStep()
 		// a matrix whose dimensions we know, so that a valid permutation exists
+		collideCfg := false
 		var perm map[string]string
 		switch c12Mode {
 		case 0:
@@ -276,6 +277,7 @@ func c12StepLevel(c *ctx, rng *core.Rand, _ []*core.Session, n int) error {
 			cfg.Set("~arm", "literal {{matrix.arch}}")
 			stepDoc.Set("plugins", []any{ordered.MapFromItems(ordered.TupleSA{Key: "collide#v1", Value: cfg})})
 			c.res.Hist("step.token-key-collides-with-later-literal-key")
+			collideCfg = true
 		}
 		src, err := yaml.Marshal([]any{stepDoc})
 		if err != nil {
@@ -319,6 +321,40 @@ func c12StepLevel(c *ctx, rng *core.Rand, _ []*core.Session, n int) error {
 			got = "ok " + vl.Enc(after)
 		}
 		desc := map[string]any{"step": string(src), "permutation": perm}
+		if collideCfg && ierr == nil {
+			// the collision construction, judged directly: one pass over the ORIGINAL entries in sorted key order, each
+			// key and value replaced once (token-shaped permutation values are not looked at again), later entry wins
+			rep := strings.NewReplacer("{{ matrix.os }}", perm["os"], "{{matrix.os}}", perm["os"], "{{matrix.arch}}", perm["arch"])
+			orig := map[string]string{"{{ matrix.os }}": "first", "{{matrix.arch}}": "second {{matrix.os}}", "~{{matrix.arch}}": "third",
+				"~x86": "literal {{matrix.arch}}", "~arm": "literal {{matrix.arch}}"}
+			wantCfg := map[string]any{}
+			for _, k := range sortedKeysS(orig) {
+				wantCfg[rep.Replace(k)] = rep.Replace(orig[k])
+			}
+			for _, pl := range cs.Plugins {
+				if strings.Contains(pl.Source, "collide") {
+					c.res.OracleChecks++
+					gotCfg, ok := pl.Config.(map[string]any)
+					// (the aliased rendering may have added entries of its own to the config: judge the constructed ones)
+					same := ok
+					for k, v := range wantCfg {
+						if gv, has := gotCfg[k]; !has || gv != v {
+							same = false
+						}
+					}
+					for k := range gotCfg {
+						if _, constructed := orig[k]; constructed {
+							if _, has := wantCfg[k]; !has {
+								same = false // an original token key survived
+							}
+						}
+					}
+					if !same {
+						c.res.Fail(core.OracleFailure{What: "a plugin config whose token keys land on other keys of the same map is not the single pass over its original entries", Input: desc, Got: fmt.Sprint(pl.Config), Want: fmt.Sprint(wantCfg)})
+					}
+				}
+			}
+		}
 		if len(perm) == 0 {
 			c.res.OracleChecks++
 			if ierr == nil && vl.Enc(after) != vl.Enc(before) {
